@@ -127,6 +127,8 @@ type injection struct {
 	f       func()
 	started bool
 	th      *T
+	// fireAtEnd: run f when the target finishes without having reached the point
+	fireAtEnd bool
 }
 
 // InjectAt arms an injection: when the thread named target passes k more scheduling points, f is started
@@ -138,11 +140,11 @@ func InjectAt(target string, k int, f func()) {
 	}
 	base := 0
 	for _, t := range s.threads {
-		if t.name == target {
+		if !t.done && strings.Contains(t.name, target) {
 			base = t.points
 		}
 	}
-	s.inj = &injection{target: target, at: base + k, f: f}
+	s.inj = &injection{target: target, at: base + k, f: f, fireAtEnd: true}
 }
 
 // Injected reports whether the armed injection has started.
@@ -155,7 +157,7 @@ func Injected() bool {
 func (s *Sched) notePoint(t *T) bool {
 	t.points++
 	in := s.inj
-	if in == nil || in.started || t.name != in.target || t.points < in.at {
+	if in == nil || in.started || !strings.Contains(t.name, in.target) || t.points < in.at {
 		return false
 	}
 	in.started = true
@@ -249,7 +251,7 @@ func (s *Sched) newThread(name string, f func()) *T {
 			return
 		}
 		t.done = true
-		if in := s.inj; in != nil && !in.started && t.name == in.target {
+		if in := s.inj; in != nil && !in.started && in.fireAtEnd && strings.Contains(t.name, in.target) {
 			in.started = true
 			in.th = s.newThread("injected", in.f)
 		}
@@ -597,7 +599,7 @@ func Yield(id int) {
 	}
 	// fast path: nobody else could run
 	self := s.running
-	if s.inj != nil && !s.inj.started && self.name == s.inj.target && self.points+1 >= s.inj.at {
+	if s.inj != nil && !s.inj.started && strings.Contains(self.name, s.inj.target) && self.points+1 >= s.inj.at {
 		s.park(&pendingOp{desc: yieldDesc(id)})
 		return
 	}
@@ -660,6 +662,21 @@ func Quiesce() {
 		}
 		return true
 	})
+}
+
+// BlockedThreads describes every thread that is currently parked on an operation that is not ready.
+func BlockedThreads() []string {
+	s := cur
+	if s == nil {
+		return nil
+	}
+	var out []string
+	for _, t := range s.threads {
+		if !t.done && t != s.running && t.op != nil && !t.enabled(s) && !t.op.timed {
+			out = append(out, t.name+": "+t.op.desc)
+		}
+	}
+	return out
 }
 
 // Closed reports whether a (virtual) channel has been closed.
